@@ -225,14 +225,30 @@ func runC08(c *Ctx, r *Report) {
 		}
 		okPoll := false
 		found := false
+		isOwnID := func(key ssa.Value) bool {
+			fl, base, ok := fieldLoad(key)
+			return ok && fl == msgIDF && sameParam(base, mParam)
+		}
 		for _, f := range append([]*ssa.Function{sendRPC}, AnonFuncsDeep(sendRPC)...) {
 			for _, ci := range staticCallsTo(f, getMsg) {
 				found = true
-				key := ci.Common().Args[1]
-				if fl, base, ok := fieldLoad(key); ok && fl == msgIDF && sameParam(base, mParam) {
-					okPoll = true
-				} else {
+				okPoll = isOwnID(ci.Common().Args[1])
+			}
+			// the poll in a helper of this package that sendRPC calls or starts: its key is the helper's parameter,
+			// bound to m.MessageID at the call site
+			for _, ci := range callInstrs(f) {
+				h := ci.Common().StaticCallee()
+				if h == nil || h == getMsg || h.Pkg != sendRPC.Pkg || len(h.Blocks) == 0 {
+					continue
+				}
+				for _, in := range staticCallsTo(h, getMsg) {
+					found = true
 					okPoll = false
+					for pi, p := range h.Params {
+						if sameParam(in.Common().Args[1], p) && pi < len(ci.Common().Args) && isOwnID(ci.Common().Args[pi]) {
+							okPoll = true
+						}
+					}
 				}
 			}
 		}
